@@ -269,7 +269,7 @@ fn check_lifecycle(frames: &[Value], rep: &mut Report, case: &Value) -> String {
 }
 
 async fn task_case(app: &axum::Router, data_dir: &std::path::Path, ws: &std::path::Path, rng: &mut Rng, rep: &mut Report, model: &mut Model) {
-    let kinds = ["plain", "both", "multibyte", "binary", "big", "exit7", "cancel", "cancel_after_exit", "invalid_args", "bad_cwd", "cwd_escape", "preview0", "preview2", "cap", "unsupported_tool", "no_artifact_store"];
+    let kinds = ["plain", "both", "multibyte", "binary", "big", "exit7", "cancel", "cancel_after_exit", "invalid_args", "bad_cwd", "cwd_escape", "preview0", "preview2", "cap", "unsupported_tool", "no_artifact_store", "huge"];
     let kind = *rng.pick(&kinds);
     let mut args = match kind {
         "plain" => json!({"command": "printf 'hello\\nworld\\n'"}),
@@ -278,6 +278,9 @@ async fn task_case(app: &axum::Router, data_dir: &std::path::Path, ws: &std::pat
         "binary" => json!({"command": "printf '\\377\\376\\000abc\\342\\202'"}),
         "big" => json!({"command": "head -c 20000 /dev/zero | tr '\\0' 'é' ; printf tail"}),
         "exit7" => json!({"command": "printf bye; exit 7"}),
+        // more than the preview budget on both streams, with the DEFAULT caps (no per-task argument):
+        // what is stored is judged against the configured default, not against what the frames say
+        "huge" => json!({"command": "head -c 700000 /dev/zero | tr '\\0' 'x'; head -c 600000 /dev/zero | tr '\\0' 'y' >&2"}),
         "cancel" => json!({"command": "printf start; sleep 5; printf never"}),
         // the command itself exits at once; a background grandchild keeps the pipes open for a while: a
         // cancel that arrives in between comes after the process has exited and before the terminal frame
@@ -293,7 +296,7 @@ async fn task_case(app: &axum::Router, data_dir: &std::path::Path, ws: &std::pat
         "preview2" => json!({"command": "printf '日本語'", "max_bytes": 2}),
         _ => json!({"command": "printf '0123456789abcdef'", "artifact_max_bytes": 5}),
     };
-    if kind != "invalid_args" && rng.chance(1, 4) && args.get("max_bytes").is_none() {
+    if kind != "invalid_args" && kind != "huge" && rng.chance(1, 4) && args.get("max_bytes").is_none() {
         args["max_bytes"] = json!(*rng.pick(&[0, 1, 3, 4, 100]));
     }
     let case = json!({"kind": kind, "args": args});
@@ -407,6 +410,16 @@ async fn task_case(app: &axum::Router, data_dir: &std::path::Path, ws: &std::pat
         if (stored.len() as u64) > cap {
             rep.oracle_failure("C17|cap-exceeded", "stored more than the cap", case.clone());
         }
+        if kind == "huge" {
+            // what the process wrote is known; the cap is the configured default
+            let configured = rip_tools::BuiltinToolConfig::default().artifact_max_bytes;
+            let (wrote, byte) = if stream == "stdout" { (700_000usize, b'x') } else { (600_000usize, b'y') };
+            let want = wrote.min(configured);
+            if stored.len() != want || stored.iter().any(|b| *b != byte) {
+                rep.oracle_failure("C17|stored-is-not-the-prefix-up-to-the-configured-cap", &format!("{stream}: the process wrote {wrote} bytes, the configured default cap is {configured}; {} bytes are stored (the spawn frame reports a cap of {cap})", stored.len()), case.clone());
+            }
+            rep.count("task_huge_streams_checked");
+        }
         // model: the same chunks through the log-writer model reproduce stored + ranges
         if ok && !chunks.is_empty() && cap >= stored.len() as u64 {
             let m = model.ask(&format!("c17w {} {}", cap.min(1 << 40), chunks_tokens(&chunks)));
@@ -417,7 +430,7 @@ async fn task_case(app: &axum::Router, data_dir: &std::path::Path, ws: &std::pat
         // page walk through the HTTP endpoint
         let mut off = 0u64;
         let mut text = String::new();
-        let page = *rng.pick(&[3usize, 4, 5, 7, 64, 10_000]);
+        let page = if kind == "huge" { 65_536 } else { *rng.pick(&[3usize, 4, 5, 7, 64, 10_000]) };
         for _ in 0..20_000 {
             let (st, v) = call_json(app, "GET", &format!("/tasks/{id}/output?stream={stream}&offset_bytes={off}&max_bytes={page}"), None).await;
             if st != axum::http::StatusCode::OK {
